@@ -205,21 +205,21 @@ fn c13_step_preserves_sleep_invariant() {
         4 => d.set_vertical_scroll_offset(kani::any()),
         _ => d.set_tearing_effect(options::TearingEffect::Vertical),
     };
-    assert!(d.is_sleeping() == d.di.sleeping, "C13: flag differs from the controller's sleep state");
+    kani::assert(d.is_sleeping() == d.di.sleeping, "C13: flag differs from the controller's sleep state");
     if r.is_ok() {
         match op {
-            0 => assert!(d.is_sleeping(), "C13: sleeping after sleep"),
-            1 => assert!(!d.is_sleeping(), "C13: awake after wake"),
-            _ => assert!(d.is_sleeping() == before, "C13: flag changed by an unrelated call"),
+            0 => kani::assert(d.is_sleeping(), "C13: sleeping after sleep"),
+            1 => kani::assert(!d.is_sleeping(), "C13: awake after wake"),
+            _ => kani::assert(d.is_sleeping() == before, "C13: flag changed by an unrelated call"),
         }
         if op < 2 {
-            assert!(clock.ns.get() >= d.di.t_slp_ns.unwrap() + 120_000_000, "C13: 120 ms after the sleep command before returning");
-            assert!(d.di.t_slp_ns.unwrap() >= t0, "C13: command sent before the delay");
+            kani::assert(clock.ns.get() >= d.di.t_slp_ns.unwrap() + 120_000_000, "C13: 120 ms after the sleep command before returning");
+            kani::assert(d.di.t_slp_ns.unwrap() >= t0, "C13: command sent before the delay");
         }
     } else {
-        assert!(d.is_sleeping() == before, "C13: flag changed although the command failed");
+        kani::assert(d.is_sleeping() == before, "C13: flag changed although the command failed");
     }
-    assert!(d.di.min_slp_gap_ns >= 120_000_000, "C13: sleep commands less than 120 ms apart");
+    kani::assert(d.di.min_slp_gap_ns >= 120_000_000, "C13: sleep commands less than 120 ms apart");
     kani::cover!(op == 0 && r.is_ok());
     kani::cover!(op == 1 && r.is_err());
 }
@@ -257,26 +257,26 @@ fn c12_display_call_fault() {
     };
     let n = clock.ops.get();
     match r {
-        Ok(()) => assert!(n <= k, "C12: a failing operation was swallowed"),
-        Err(_) => assert!(n == k + 1, "C12: operations issued after the failing one"),
+        Ok(()) => kani::assert(n <= k, "C12: a failing operation was swallowed"),
+        Err(_) => kani::assert(n == k + 1, "C12: operations issued after the failing one"),
     }
     // nothing wedged: driver state is consistent and a later draw is placed correctly
     if r.is_err() || op != 2 {
-        if op != 2 { assert!(d.options.orientation == before.orientation, "C12: orientation changed by an unrelated call"); }
+        if op != 2 { kani::assert(d.options.orientation == before.orientation, "C12: orientation changed by an unrelated call"); }
     }
-    if op >= 2 { assert!(d.sleeping == slp, "C12: sleep flag changed"); }
-    assert!(d.madctl == dcs::SetAddressMode::from(&d.options), "C12: cached address mode inconsistent with the options after the call");
+    if op >= 2 { kani::assert(d.sleeping == slp, "C12: sleep flag changed"); }
+    kani::assert(d.madctl == dcs::SetAddressMode::from(&d.options), "C12: cached address mode inconsistent with the options after the call");
     clock.fail_at.set(u32::MAX);
     let held = if r.is_ok() && op == 2 { o2 } else { before.orientation };
-    assert!(d.options.orientation == held, "C12: driver orientation differs from what the controller holds");
+    kani::assert(d.options.orientation == held, "C12: driver orientation differs from what the controller holds");
     let m0 = d.di.ncmd;
     let (lw, lh) = oracle_logical_size(d.options.orientation, d.options.display_size.0, d.options.display_size.1);
     let (x, y): (u16, u16) = (kani::any(), kani::any());
     kani::assume(x < lw && y < lh);
-    assert!(d.set_pixel(x, y, any_color()).is_ok(), "C12: drawing fails after the fault has cleared");
+    kani::assert(d.set_pixel(x, y, any_color()).is_ok(), "C12: drawing fails after the fault has cleared");
     let want = oracle_madctl(d.options.color_order, held, d.options.refresh_order);
     let (sc, sr, ec, er) = window_at(&d, m0);
-    assert!(sc == ec && sr == er, "C12: window");
+    kani::assert(sc == ec && sr == er, "C12: window");
     assert_lands(&d, want, sc, sr, x, y);
     kani::cover!(r.is_err() && op == 7);
     kani::cover!(r.is_err() && op == 2);
@@ -295,15 +295,15 @@ fn c02_draw_iter_one_pixel<const W: u16, const H: u16>() {
     let (lw, lh) = oracle_logical_size(d.options.orientation, d.options.display_size.0, d.options.display_size.1);
     let (x, y): (i32, i32) = (kani::any(), kani::any());
     let r = d.draw_iter(core::iter::once(Pixel(Point::new(x, y), any_color())));
-    assert!(r.is_ok(), "C02: draw_iter returned an error on a fault-free bus");
+    kani::assert(r.is_ok(), "C02: draw_iter returned an error on a fault-free bus");
     let inb = x >= 0 && y >= 0 && (x as i64) < lw as i64 && (y as i64) < lh as i64;
     if inb {
-        assert!(d.di.ncmd == 3 && d.di.px_calls == 1 && d.di.px_count == 1, "C08: one window, one pixel");
+        kani::assert(d.di.ncmd == 3 && d.di.px_calls == 1 && d.di.px_count == 1, "C08: one window, one pixel");
         let (sc, sr, ec, er) = window_at(&d, 0);
-        assert!(sc == ec && sr == er, "C08: 1x1 window");
+        kani::assert(sc == ec && sr == er, "C08: 1x1 window");
         assert_lands(&d, madctl, sc, sr, x as u16, y as u16);
     } else {
-        assert!(d.di.ncmd == 0 && d.di.px_calls == 0, "C02: an out-of-bounds pixel was not discarded");
+        kani::assert(d.di.ncmd == 0 && d.di.px_calls == 0, "C02: an out-of-bounds pixel was not discarded");
     }
     kani::cover!(inb);
     kani::cover!(!inb && x >= 0 && y >= 0);
@@ -327,14 +327,14 @@ fn c02_draw_iter_one_pixel_default() {
     let mut d = default_display::<240, 320>(&clock);
     let (x, y): (i32, i32) = (kani::any(), kani::any());
     let r = d.draw_iter(core::iter::once(Pixel(Point::new(x, y), any_color())));
-    assert!(r.is_ok(), "C02: draw_iter returned an error on a fault-free bus");
+    kani::assert(r.is_ok(), "C02: draw_iter returned an error on a fault-free bus");
     let inb = x >= 0 && y >= 0 && x < 240 && y < 320;
     if inb {
-        assert!(d.di.ncmd == 3 && d.di.px_calls == 1 && d.di.px_count == 1, "C08: one window, one pixel");
+        kani::assert(d.di.ncmd == 3 && d.di.px_calls == 1 && d.di.px_count == 1, "C08: one window, one pixel");
         let (sc, sr, ec, er) = window_at(&d, 0);
-        assert!(sc == ec && sr == er && sc as i32 == x && sr as i32 == y, "C02: C08: 1x1 window at the pixel");
+        kani::assert(sc == ec && sr == er && sc as i32 == x && sr as i32 == y, "C02: C08: 1x1 window at the pixel");
     } else {
-        assert!(d.di.ncmd == 0 && d.di.px_calls == 0, "C02: an out-of-bounds pixel was not discarded");
+        kani::assert(d.di.ncmd == 0 && d.di.px_calls == 0, "C02: an out-of-bounds pixel was not discarded");
     }
     kani::cover!(inb);
     kani::cover!(!inb && x >= 0 && y >= 0);
